@@ -35,6 +35,7 @@ type Engine struct {
 	unbound  []string // contracts that no longer bind (STALE-CONTRACT)
 	files    map[string]*ast.File
 	loadSecs float64
+	fieldFuncs map[string]*Contract
 	lines    map[string][]string
 	mu       sync.Mutex
 }
@@ -107,6 +108,13 @@ func loadEngine(repo, assumedDir string, overlay map[string][]byte) (*Engine, er
 // bindContracts resolves contract headers to *types.Func objects.
 func (eng *Engine) bindContracts() {
 	for _, c := range eng.cs.Contracts {
+		if c.FieldFunc {
+			if eng.fieldFuncs == nil {
+				eng.fieldFuncs = map[string]*Contract{}
+			}
+			eng.fieldFuncs[c.PkgPath+"."+strings.TrimPrefix(c.RecvType, "*")+"."+c.Name] = c
+			continue
+		}
 		fn, why := eng.resolveFunc(c)
 		if fn == nil {
 			eng.unbound = append(eng.unbound, fmt.Sprintf("func=%s reason=%s", c.Key(), why))
